@@ -33,6 +33,15 @@ typedef struct {
     /* (appended for C11) optional policy hook, consulted after the explicit schedule prefix and before [policy]:
      * returns the tid to run next among enabled[0..n) or -1 to fall back on [policy]; me = thread that just ran */
     int (*choose)(int step_index, int me, const int* enabled, int n);
+    /* (appended for C12's shared-pool harness) optional: called before the run is stopped with exit status 6 because the code under
+     * test used a synchronisation object wrongly (lock / wait on a destroyed object, destroy of a locked mutex or of a condition
+     * with waiters, unlock by a non-owner) */
+    void (*on_fatal)(const char* what);
+    /* (appended for C12) fault injection driven by the schedule.  0 = off: pthread_create never fails and zv_step_fault() returns
+     * 0.  Otherwise the [w] of a step is also its failure point: zv_step_fault() returns the w of the step being executed (explicit
+     * prefix: sched_w; after it, under ZV_POLICY_RANDOM, a non-zero value with probability fault_pct %), w = 1 is for the caller
+     * (an allocation failure), and the (k+1)-th pthread_create of the step fails with EAGAIN when w = k + 2. */
+    int fault_enable; int fault_pct;
 } zv_params;
 
 void zv_sched_begin(const zv_params* p);   /* calling thread becomes tid 0 */
@@ -45,6 +54,10 @@ zv_status zv_thread_status(int tid, void** obj);
 char zv_thread_op(int tid);              /* for ZS_RUN: the operation the thread stands at: U unlock, W cond_wait, S signal, B broadcast */
 int  zv_mutex_owner(const pthread_mutex_t* m);
 int  zv_schedule_mismatch(void);           /* the explicit schedule named a disabled thread at some step */
+int  zv_step_fault(int nalt);               /* w of the current step as a failure point (0 = none); nalt = number of alternatives the
+                                               caller knows of (recorded in the trace for the exhaustive search) */
+void zv_fail_create_at(int k);              /* the k-th pthread_create from now on (1-based) fails once, whatever the schedule; 0 = off */
+int  zv_thread_faults(void);                /* number of pthread_create failures injected into the calling thread so far */
 int  zv_trace_len(void);
 const zv_trace_step* zv_trace(void);
 
